@@ -1,27 +1,5 @@
-(* include: lua_ser.inc.ml *)
+(* include: lua_ser.inc.ml lua_legs.inc.ml *)
 (* C03 driver: Lua front end (lexer + parser model). Answer line: <model>\t<spec>\t<class> *)
-
-(* TEMPORARY numeral classifier until Model/Number.v is folded in *)
-let tmp_classify (s : n list) : numcls =
-  let str = String.lowercase_ascii (string_of_bytes s) in
-  let is_digits x = x <> "" && String.for_all (fun c -> c >= '0' && c <= '9') x in
-  if is_digits str then (try NInt (z_of_int (int_of_string str)) with _ -> NFloat)
-  else match float_of_string_opt str with Some _ when not (String.contains str '_') -> NFloat | _ -> NBad
-
-let parse_model (bs : n list) : string =
-  oracle_used := false;
-  let r = parse_bytes gbk_oracle classify_tok bs in
-  if !oracle_used then "SKIP-ORACLE" else
-  match r with
-  | OutOfFuel -> "MODEL-OUT-OF-FUEL"
-  | Fault _ -> "MODEL-FAULT"
-  | Ok PRTooMany -> "TOOMANY"
-  | Ok (PR (blk, le, pe)) ->
-    let b = Buffer.create 1024 in
-    let lex = List.sort compare (List.map lexerr_s le) in
-    Buffer.add_string b ("OK L:" ^ String.concat "," lex ^ " P:" ^ String.concat "," (List.map perr_s pe) ^ " AST:");
-    block_s (le = []) b blk;
-    Buffer.contents b
 
 let () = register "c03.parse" (fun line ->
   let bs = bytes_of_hex (List.hd (split_ws line)) in
@@ -29,22 +7,6 @@ let () = register "c03.parse" (fun line ->
 
 let () = register "c03.lex" (fun line ->
   let bs = bytes_of_hex (List.hd (split_ws line)) in
-  oracle_used := false;
-  match lex_all gbk_oracle bs with
-  | OutOfFuel -> "MODEL-OUT-OF-FUEL\t-\t-"
-  | Fault _ -> "MODEL-FAULT\t-\t-"
-  | Ok lts ->
-    if !oracle_used then "SKIP-ORACLE\t-\t-" else
-    let errs = List.concat_map (fun (t : ltok) -> t.lerrs) lts in
-    let lex = List.sort compare (List.map lexerr_s errs) in
-    let wl = (errs = []) in
-    let b = Buffer.create 1024 in
-    Buffer.add_string b ("L:" ^ String.concat "," lex ^ " T:");
-    let prev = ref zero_tok in
-    List.iter (fun (t : ltok) ->
-      let l = tok_loc !prev t.lt in
-      Buffer.add_string b (Printf.sprintf " %s:%s%s" (kind_s t.lt.tk) (hex_of_bytes t.lt.tstr) (loc_s wl l));
-      prev := t.lt) lts;
-    Buffer.contents b ^ "\t-\t-")
+  fst (lex_model bs) ^ "\t-\t-")
 
 let () = main ()
